@@ -1,6 +1,7 @@
 package main
 
 import (
+	"bytes"
 	"encoding/json"
 	"fmt"
 	"os"
@@ -12,6 +13,7 @@ import (
 
 	"github.com/btcsuite/btcd/blockchain"
 	"github.com/btcsuite/btcd/btcutil/v2"
+	"github.com/btcsuite/btcd/database"
 	"github.com/btcsuite/btcd/wire/v2"
 )
 
@@ -38,7 +40,7 @@ func openNode(plan *crashkit.Plan, w *Workload, rec *crashkit.Recorder) (*node.N
 	cb := func(e node.IOEvent) error {
 		return rec.Event(crashkit.Event{Kind: e.Kind, FileNum: e.FileNum, Off: e.Off, N: e.N})
 	}
-	cfg := node.Config{Params: node.NewParams(w.Family), UtxoCacheMaxSize: w.Cfg.UtxoCache,
+	cfg := node.Config{Params: node.NewParams(w.Family), UtxoCacheMaxSize: w.Cfg.UtxoCache, Prune: w.Cfg.Prune,
 		FFLDB: &node.FFLDBOpts{Cb: cb, MaxBlockFileSize: w.Cfg.MaxBlockFileSize, CacheBytes: w.Cfg.LdbCacheBytes, FlushSecs: w.Cfg.FlushSecs}}
 	return node.Open(dir, cfg, node.NewClock(w.Clock))
 }
@@ -237,10 +239,36 @@ func childRecover(plan *crashkit.Plan) int {
 			fail("recovery:height-index", "BlockHashByHeight(%d) after recovery: %v %v", h, hh, err)
 			break
 		}
-		if _, err := n.Chain.BlockByHash(&b.Hash); err != nil {
+		if _, err := n.Chain.BlockByHash(&b.Hash); err != nil && w.Cfg.Prune == 0 {
+			// (with pruning old blocks may legitimately be gone; the store-level check below applies instead)
 			fail("recovery:active-block-unreadable", "active chain block %s cannot be read after recovery: %v", b.Name, err)
 			break
 		}
+	}
+	// the store never references data it does not have: every block the store says it has is served byte-identical
+	// (with pruning this is what remains of "readable": a block is either gone together with its index row or intact)
+	verr := n.DB.View(func(dbTx database.Tx) error {
+		for _, b := range blocks {
+			has, err := dbTx.HasBlock(&b.Hash)
+			if err != nil || !has {
+				continue
+			}
+			raw, err := dbTx.FetchBlock(&b.Hash)
+			if err != nil {
+				fail("recovery:store-has-block-but-cannot-serve-it", "the block store reports block %s as present but FetchBlock fails: %v", b.Name, err)
+				return nil
+			}
+			var buf bytes.Buffer
+			b.Msg.Serialize(&buf)
+			if !bytes.Equal(raw, buf.Bytes()) {
+				fail("recovery:stored-block-bytes-differ", "block %s is served with different bytes after recovery", b.Name)
+				return nil
+			}
+		}
+		return nil
+	})
+	if verr != nil {
+		fail("recovery:store-view-failed", "database view after recovery: %v", verr)
 	}
 	// 3. every block acknowledged before the last durable commit is still known
 	for _, bi := range w.Durable {
@@ -252,7 +280,7 @@ func childRecover(plan *crashkit.Plan) int {
 		}
 		if _, err := n.Chain.BlockByHash(&b.Hash); err != nil {
 			// BlockByHash only serves main-chain blocks in btcd; side-chain blocks are checked through HaveBlock
-			if tip.Ancestor(b.Height) == b {
+			if tip.Ancestor(b.Height) == b && w.Cfg.Prune == 0 {
 				fail("recovery:acked-block-unreadable", "acknowledged active block %s unreadable: %v", b.Name, err)
 				break
 			}
@@ -281,7 +309,9 @@ func childRecover(plan *crashkit.Plan) int {
 		}
 	}
 	for i := start; i < len(w.Ops); i++ {
-		doOp(n, blocks, w.Ops[i])
+		err := doOp(n, blocks, w.Ops[i])
+		bs := n.Chain.BestSnapshot()
+		rec.Op("R %d %s %d err=%v tip=%d", i, w.Ops[i].Kind, w.Ops[i].Block, err, bs.Height)
 	}
 	final := tipOf(w.TipAfter[len(w.TipAfter)-1])
 	snap = n.Chain.BestSnapshot()
